@@ -1,5 +1,5 @@
 /- C19 / FI: the contracts of `reverse_purge_hash_map` / `frequent_items_sketch` over the heap calculus. -/
-import DSProofs.Lemmas.LifeFiB
+import DSProofs.Lemmas.LifeFiE
 namespace DS.Life.Fi
 open DS.Life
 
@@ -140,5 +140,29 @@ theorem get_contract {P : Params} {n0 : Nat} {ids0 : List Nat} {m : Map} {kv : N
   intro _ h' e
   subst e
   exact ⟨hu, hid⟩
+
+theorem idsLt_of_fresh {n0 : Nat} {ids0 : List Nat} {h : Heap} (hfresh : ∀ b, b ∈ ids0 → b < n0) (hn : n0 ≤ h.next)
+    (hid : h.ids = ids0) : IdsLt h := fun b hb => Nat.lt_of_lt_of_le (hfresh b (hid ▸ hb)) hn
+
+/-- `update(item, weight)`; general form: every block id of the start heap is below its `next` (`IdsLt h`, the
+    second half of `Heap.WF`) -/
+theorem update_contract_wf {P : Params} (hP : P.OK) {n0 : Nat} {ids0 : List Nat} {s : Sketch} {a w : Nat} :
+    TripleS n0 (foot (owned s.map) n0) (fun h => Usable P h s.map ∧ h.ids = ids0 ∧ IdsLt h)
+      (Sketch.update P s (.ext a) w)
+      (fun s' h' => Usable P h' s'.map ∧ Owns h' ids0 (owned s.map) (owned s'.map) n0) := by
+  intro h hn ⟨hu, hid, hlt⟩
+  refine SafeF.mono (update_spec P hP n0 _ s (.ext a) w foot_ge (fun b hb => foot_own (by simpa [srcBlk] using hb)) h h hn
+    ⟨rfl, hu, trivial, hlt, fun b hb => by cases hb⟩) ?_
+  intro s' h' ⟨hu', g, _⟩
+  exact ⟨hu', hid ▸ g.owns hn⟩
+
+/-- `update(item, weight)` (extra hypothesis `hfresh`: the ids of the start heap are below the allocation mark, needed
+    because `purge` allocates and frees a temporary) -/
+theorem update_contract {P : Params} (hP : P.OK) {n0 : Nat} {ids0 : List Nat} {s : Sketch} {a w : Nat}
+    (hfresh : ∀ b, b ∈ ids0 → b < n0) :
+    TripleS n0 (foot (owned s.map) n0) (fun h => Usable P h s.map ∧ h.ids = ids0)
+      (Sketch.update P s (.ext a) w)
+      (fun s' h' => Usable P h' s'.map ∧ Owns h' ids0 (owned s.map) (owned s'.map) n0) :=
+  fun h hn ⟨hu, hid⟩ => update_contract_wf hP h hn ⟨hu, hid, idsLt_of_fresh hfresh hn hid⟩
 
 end DS.Life.Fi
